@@ -321,6 +321,14 @@ def _realise(width, acc, c):
     hit = _sum_index.get(key)
     if hit is not None:
         return hit
+    if len(acc) == 1 and c == 0:
+        (t, k), = acc.items()
+        if k & (k - 1) == 0:
+            # 2^j * x is the left shift of x (x + x, x * 8, ...): one canonical bit-level form
+            bits = shl(t, k.bit_length() - 1)
+            _sum_index[key] = bits
+            _lin_view[bits] = key
+            return bits
     # low bits that are constant in every operand (all coefficients odd): computed exactly, the
     # remaining bits are the canonical form of a narrower sum (an identity of modular arithmetic)
     bits = None
